@@ -1,13 +1,21 @@
 import Pocket.Lemmas.Total
 import Pocket.Lemmas.Digits
+import Pocket.Lemmas.FilterRT
+import Pocket.Lemmas.Layout
 /-
 C07 — filter JSON parsing: integer members never wrap, duplicate tag letters are detected
 whatever their position, and the parser is total.
 
-Faithfulness to an independent parser, order independence and the as_json round trip are
-established by the correspondence check (Python `json`, all 52×52 letter pairs, member
-permutations); their proofs (`parseFilter_complete`, DESIGN.md §6/C07) are not closed yet and
-are not claimed.
+THE ROUND TRIP (`round_trip`, `round_trip_values`): for every canonical filter — any numbers of ids,
+authors and kinds, up to 32 tag constraints named by distinct letters with UTF-8 values, any
+since/until/limit, members present or defaulted — `as_json` succeeds and `from_json` of its text
+(with any trailing input, into any sufficient buffer with any prior contents) consumes exactly the
+text and yields exactly the bytes of `from_parts`, whose accessors return the filter.  Both passes
+of the parser are covered: the first records positions and skips values, the second copies.
+
+Faithfulness to an independent parser on *arbitrary* texts and order independence are established
+by the correspondence check (Python `json`, all 52×52 letter pairs, member permutations) and are
+not claimed as theorems.
 -/
 namespace Pocket.C07
 open Pocket
@@ -75,5 +83,48 @@ theorem duplicate_letter_rejected (st : FlSt) (l : Nat) (after : Bytes) (hl : is
   simp only [Bool.false_eq_true, if_false, hl, and_self, if_true]
   have : ¬ st.tagStarts.length ≥ 32 := by omega
   simp only [this, if_false, List.contains_iff_mem, hseen, if_true]
+
+/-- **the round trip**: `from_json (as_json f) = from_parts f`, byte for byte, consuming exactly the
+text, for every canonical filter, every trailing input and every sufficient buffer -/
+theorem round_trip (f : FilterRec) (hc : FilterCanon f) (rest buf : Bytes)
+    (hbuf : (encodeFilter f).length ≤ buf.length) :
+    ∃ txt, filterJson f = .ok txt ∧
+      parseFilter (txt ++ rest) buf =
+        .ok (txt.length, (encodeFilter f).length, encodeFilter f ++ buf.drop (encodeFilter f).length) := by
+  obtain ⟨txt, ht⟩ := filterJson_ok f hc
+  exact ⟨txt, ht, parseFilter_filterJson f hc txt ht rest buf hbuf⟩
+
+/-- … and the accessors of the parsed value return the original filter -/
+theorem round_trip_values (f : FilterRec) (hc : FilterCanon f) (rest buf : Bytes)
+    (hbuf : (encodeFilter f).length ≤ buf.length) :
+    ∃ txt c n out, filterJson f = .ok txt ∧ parseFilter (txt ++ rest) buf = .ok (c, n, out) ∧
+      c = txt.length ∧ filterDecode (out.take n) = .ok f := by
+  obtain ⟨txt, ht, hp⟩ := round_trip f hc rest buf hbuf
+  refine ⟨txt, _, _, _, ht, hp, rfl, ?_⟩
+  rw [List.take_left' rfl]
+  exact filterDecode_encode f hc.sized
+
+/-- the hypotheses are satisfiable: ids, a kind, two tag constraints, a limit -/
+example : ∃ f : FilterRec, FilterCanon f ∧ f.tags.length = 2 ∧ f.ids ≠ [] := by
+  refine ⟨{ ids := [List.replicate 32 7], authors := [], kinds := [1], tags := [[[101], utf8Of [97]], [[112], utf8Of [233], utf8Of [10]]],
+            since := 0, «until» := U64MAX, limit := 10 }, ?_, rfl, by simp⟩
+  refine ⟨?_, ?_, ?_, ?_, ?_, ?_⟩
+  · constructor <;> simp [U64MAX] <;> decide
+  · intro x hx b hb
+    simp only [List.mem_singleton] at hx; subst hx
+    simp only [List.mem_replicate] at hb; omega
+  · intro x hx; cases hx
+  · intro t ht
+    simp only [List.mem_cons, List.not_mem_nil, or_false] at ht
+    rcases ht with rfl | rfl
+    · exact ⟨101, [utf8Of [97]], rfl, by decide, fun v hv => by
+        simp only [List.mem_singleton] at hv; subst hv; exact ⟨[97], by decide, rfl⟩, by decide⟩
+    · exact ⟨112, [utf8Of [233], utf8Of [10]], rfl, by decide, fun v hv => by
+        simp only [List.mem_cons, List.not_mem_nil, or_false] at hv
+        rcases hv with rfl | rfl
+        · exact ⟨[233], by decide, rfl⟩
+        · exact ⟨[10], by decide, rfl⟩, by decide⟩
+  · decide
+  · decide
 
 end Pocket.C07
